@@ -256,6 +256,8 @@ theorem canPack_safeFuse (G : Graph) {t o c : Nat} (h : canPack Rules.current G 
   · unfold cpTransposeOk at h2
     simpa [Rules.current, bne] using h2
   · unfold cpActOk at h1
+    rw [Bool.and_eq_true] at h1
+    replace h1 := h1.1
     simp only [Rules.current, Bool.true_and, activationOps_eq_reluOps] at h1
     cases hr : reluOps.contains (G.op c).type with
     | false => simp
